@@ -27,7 +27,7 @@ import shutil
 import numpy as np
 
 from ..common import Violation, Probes, HarnessError
-from ..sched import Scheduler, StepCapExceeded
+from ..sched import Scheduler, StepCapExceeded, python_methods_of
 from ..daskseam import SimGet
 from ..fsseam import FsSeam, LineCounter, SimCancel, listing, CLEANUP_OPS
 from ..snapshot import snap, diff
@@ -88,7 +88,7 @@ class Rig:
             with seam:
                 if case.uses_dask and getattr(est, "n_threads", 1) > 1:
                     sched = Scheduler(self.tape, self.ctx.trace_roots, step_cap=2_000_000)
-                    get = SimGet(sched, self.tape)
+                    get = SimGet(sched, self.tape, instr_codes=python_methods_of(type(est), self.ctx.trace_roots))
                     with dask.config.set(scheduler=get), counter:
                         value = fn(X, kw)
                 else:
